@@ -57,11 +57,11 @@ PROBES = {
     "C07_HAS_VALUE": "etl::optional<int> o(1); etl::expected<int,int> e; (void)o.value(); (void)e.value();",
 }
 PROBE_RESULT = {k: _probe(v) for k, v in PROBES.items()}
-# std::expected needs C++23; 15 variant + 9 optional + 7 expected configurations at -O0, compiled as NPARTS object files in
+# std::expected needs C++23; 19 variant + 9 optional + 7 expected configurations and the multi-type visits at -O0, compiled as NPARTS object files in
 # parallel (harness/c07.cpp: -DC07_PART=k) by run() below; check.py then compiles main() and links them.
 BASE_FLAGS = ["-std=c++23", "-O0"] + ["-D%s=%d" % kv for kv in sorted(PROBE_RESULT.items())]
 HARNESS_FLAGS = list(BASE_FLAGS)
-NPARTS = 11
+NPARTS = 19
 
 
 def _build_parts():
@@ -148,6 +148,15 @@ RULE = ("A case is a history: `new kind=var|opt|oref|exp alts=.. n=N` creates N 
         "pointer, enumeration and class alternatives ({bool,Text}, {Text,bool}, {int,bool,void const*}, {bool,int}, {bool,Num}, "
         "{char,long,double}, {float,long}, {short,unsigned}, {char const*,Text}, {void const*,bool}, {Text,Num}, {int,SE}, "
         "{UE,long}, {bool,double,Text}, {bool}, {bool,bool}, {int,float,double}, {long,Num}, {int*,bool}) x both forms. "
+        "Visits over arguments of DIFFERENT types (`new kind=mv`, `mvis k=[..] act=[..] v=[..] q=[..] idx=0|1`): etl::visit and "
+        "etl::visit_with_index over one to four arguments where every argument has its own variant type and alternative count - "
+        "argument kinds: a non-variant int, variant<long>, variant<int,Trk>, variant<Trk,float,int>, variant<float,int,long,Trk> - "
+        "for EVERY pair of kinds (alternative counts 1..4 x 1..4, decreasing, equal and increasing), every triple of the three "
+        "variant kinds with 1..3 alternatives plus a non-variant argument in each position between two variants, and the lists "
+        "(3,2,2,3) and (2,2,3,3), x EVERY tuple of active indices x both entry points x value categories per argument (all 16 "
+        "pairs for 3x2 and 2x3, six pairs otherwise, two triples, one quadruple); the visitor takes forwarding references and "
+        "reports per argument the reference kind, the static type and the value (visit_with_index: also the static index), "
+        "compared with std::visit over std::variants of the same alternatives. "
         "Random part (VERIF_SEED): histories of 10-30 operations over all "
         "members. A case is non-trivial when some line leaves the objects in a state different from the initial one; "
         "distinct = distinct case text.")
@@ -187,6 +196,8 @@ TRUSTED = ["hand model Tetl/C07/Model.lean tied to the source by the corresponde
 T = "Tetl.C07.Props."
 THEOREMS = {
     "vcat": [], "ocat": [], "ecat": [],
+    "mvis": [T + "visitN_active", T + "visit_dispatch", T + "visit_flat_key_counterexample", T + "visit_flat_key_collides",
+             T + "visit_flat_key_ok_of_sorted"],
     "visit": [T + "visit_dispatch", T + "visit1_active", T + "visit2_active"], "visitp": [T + "visit_dispatch"],
     "emplace": [T + "step_refines_partial", T + "run_refines_partial", T + "optional_refines", T + "expected_refines_partial"],
     "make": [T + "step_refines_partial", T + "run_refines_partial"],
@@ -403,6 +414,69 @@ def gen_sel_exhaustive(add, thorough):
             add([new("sel")] + ["sel a=%s alts=%s how=%s" % (a, alts, how) for a in SEL_ARGS], "sel/" + alts)
 
 
+# visit over arguments of different types (`new kind=mv`): argument kinds 0 = non-variant int, 1..4 = variant with that many
+# alternatives; MV_SIZE[k] = variant_size of kind k
+MV_SIZE = [1, 1, 2, 3, 4]
+MV_Q6 = [(0, 0), (1, 1), (2, 2), (3, 3), (0, 2), (3, 1)]
+MV_Q3 = [(1, 1, 1), (2, 0, 3)]
+MV_K4 = [(3, 2, 2, 3), (2, 2, 3, 3)]
+
+
+def mv_kinds(arity):
+    """the kind tuples the harness compiles (harness/c07.cpp mv_ok3, Driver.mvOK)"""
+    if arity == 1:
+        return [(k,) for k in range(5)]
+    if arity == 2:
+        return list(itertools.product(range(5), repeat=2))
+    if arity == 3:
+        r = []
+        for ks in itertools.product(range(4), repeat=3):
+            z = ks.count(0)
+            if (z == 0) or (z == 1 and all(k in (0, 2, 3) for k in ks)):
+                r.append(ks)
+        return r
+    return list(MV_K4)
+
+
+def mv_cats(ks):
+    """the value-category tuples compiled for a kind tuple (mv_ok2 of the harness)"""
+    if len(ks) == 1:
+        return [(q,) for q in range(4)]
+    if len(ks) == 2:
+        return list(itertools.product(range(4), repeat=2)) if ks in ((3, 2), (2, 3)) else list(MV_Q6)
+    if len(ks) == 3:
+        return list(MV_Q3)
+    return [(0, 1, 2, 3)]
+
+
+def mv_line(ks, acts, vals, qs, idx):
+    return "mvis k=%s act=%s v=%s q=%s idx=%d" % (fmt_list(list(ks)), fmt_list(list(acts)), fmt_list(list(vals)), fmt_list(list(qs)), idx)
+
+
+def gen_mv_exhaustive(add, thorough):
+    """every tuple of argument kinds (alternative counts 1..4 x 1..4, 1..3 cubed, a non-variant argument in every position, two
+    lists of four) x EVERY tuple of active indices x visit / visit_with_index, per tuple of value categories"""
+    for arity in (1, 2, 3, 4):
+        for ks in mv_kinds(arity):
+            vals = [5 + j for j in range(arity)]
+            for qs in mv_cats(ks):
+                lines = [new("mv")]
+                for acts in itertools.product(*[range(MV_SIZE[k]) for k in ks]):
+                    for idx in (0, 1):
+                        lines.append(mv_line(ks, acts, vals, qs, idx))
+                add(lines, "mv-visit%d/%s" % (arity, "".join(map(str, ks))))
+
+
+def rand_mv(rnd, length):
+    lines = [new("mv")]
+    for _ in range(length):
+        arity = rnd.choice([1, 2, 2, 2, 3, 3, 4])
+        ks = rnd.choice(mv_kinds(arity))
+        lines.append(mv_line(ks, [rnd.randrange(MV_SIZE[k]) for k in ks], [rnd.randrange(0, 40) for _ in ks],
+                             rnd.choice(mv_cats(ks)), rnd.randrange(2)))
+    return lines
+
+
 def rand_var(rnd, alts, length):
     n = 3
     lines = [new("var", alts, n)]
@@ -537,11 +611,14 @@ def generate(tier, seed):
     gen_opt_exhaustive(add, thorough)
     gen_exp_exhaustive(add, thorough)
     gen_sel_exhaustive(add, thorough)
+    gen_mv_exhaustive(add, thorough)
     nr = 150000 if thorough else 3000
     for _ in range(nr):
         ln = rnd.randint(10, 30)
         r = rnd.random()
-        if r < 0.45:
+        if r < 0.05:
+            add(rand_mv(rnd, ln), "random-mv")
+        elif r < 0.45:
             add(rand_var(rnd, rnd.choice(VAR_CFGS), ln), "random-var")
         elif r < 0.75:
             add(rand_opt(rnd, rnd.choice(OPT_CFGS), ln), "random-opt")
@@ -566,6 +643,8 @@ def _state(out):
 def nontrivial(case, rows):
     if case.lines[0].startswith("new kind=sel"):        # no state: non-trivial = some argument kind selects an alternative
         return any(not r.spec.startswith("nc") for r in rows[1:])
+    if case.lines[0].startswith("new kind=mv"):         # no state: non-trivial = some argument holds another alternative than the first
+        return any(re.search(r"act=\[[^\]]*[1-9]", ln) for ln in case.lines[1:])
     s0 = _state(rows[0].spec)
     return any(_state(r.spec) != s0 for r in rows[1:])
 
@@ -612,7 +691,15 @@ LEVEL_TEXT = ("etl::variant is modelled as (index, value of the active union mem
               "index() values, step with next_seq (a mixed-radix increment that wraps to zero) and call the last instantiation "
               "untested. Lean 4 proves, for any number of variants, any alternative counts and any active indices, that this "
               "dispatch ends on exactly the active tuple (so a visitor is always invoked with the active alternatives and no inactive "
-              "member is read), and - with no bound on history length or number of objects - that every history of emplace, in-place "
+              "member is read); visitN_active states this for a list of arguments that each have their OWN alternative count "
+              "(variants of different types, non-variant arguments): the visitor receives the (index, value) of the active "
+              "alternative of every argument, in order ([variant.visit]). Three sensitivity theorems show that the statement is "
+              "not satisfied by a dispatcher that compares one flattened position with the stride multiplied before use (an "
+              "independently seeded change): it calls the visitor with two inactive alternatives for variant<A,B,C> holding A and "
+              "variant<X,Y> holding Y, two valid index tuples collide wherever a size is followed by a smaller one >= 2, and it "
+              "is right whenever the sizes never decrease - which is why visits of single variants and of equal types (all the "
+              "library itself does) cannot tell the two apart and the correspondence run drives every combination of sizes. "
+              "Lean 4 also proves - with no bound on history length or number of objects - that every history of emplace, in-place "
               "construction, copy/move assignment and construction (trivial and non-trivial special-member paths, self forms), "
               "converting construction and converting assignment from a value, and the generic three-move swap never fails and leaves "
               "every object with the index and value the sum-type spec prescribes, moved-from sources included. The element's copy "
@@ -660,7 +747,9 @@ LEVEL_TEXT = ("etl::variant is modelled as (index, value of the active union mem
               "model and implementation on the same histories (every from/to state pair x every assignment, construction, swap and "
               "comparison form over 19 variant, 9 optional, 7 expected configurations with trivially copyable, non-trivial, move-only "
               "alternatives, four with a repeated alternative type, six kinds whose four special members are distinguishable in the stored value - "
-              "also as lvalue and rvalue ARGUMENTS of the converting forms - and optional<int&>; visit with non-variant arguments; all "
+              "also as lvalue and rvalue ARGUMENTS of the converting forms - and optional<int&>; visit with non-variant arguments; visit "
+              "and visit_with_index over one to four arguments of different variant types, every combination of 1..4 x 1..4 "
+              "alternatives and every tuple of active indices; all "
               "depth-2/3 histories; random long histories; the selector probes over 18 argument kinds x 19 alternative lists) under ASan/UBSan; the spec is validated against libstdc++ on the same histories.")
 LEVEL_NOTE = ("Trusted: Lean kernel + propext/Classical.choice/Quot.sound; the hand model's fidelity outside the explored inputs; "
               "g++-12/ASan; libstdc++ 12 as oracle for spec validation. Overload resolution and template constraints are the compiler's: "
@@ -705,7 +794,8 @@ UNPROVED_OBSERVED = [
     "const& converting members, so optional<int&> from optional<int> is ill-formed and optional<int const&> from an rvalue "
     "optional<int> compiles - neither is driven nor recorded as a finding.",
     "value categories (observed, not proved - a value-level Lean model cannot carry them): the reference kind (T&, T const&, T&&, "
-    "T const&&) that visit hands to the visitor for every category of one variant and every pair of categories of two, of "
+    "T const&&) that visit hands to the visitor for every category of one variant and every pair of categories of two (same "
+    "type: vcat; different types and alternative counts, up to four arguments: the category digit of the mvis answers), of "
     "unchecked_get / std::get and operator[], of optional::operator* and the argument of optional::and_then, of expected::operator*, "
     "error() and the argument of expected::and_then / or_else, for lvalue, const lvalue, rvalue and const rvalue objects: a "
     "compile-time decltype matrix plus the run-time overload a forwarding visitor receives, etl against std line by line "
